@@ -26,7 +26,7 @@ import time
 import numpy
 import z3
 
-from symx import builders, smtre
+from symx import builders, env, smtre
 from symx.core import And, HarnessError, Not, Or, same, SymInt
 from symx.runner import Case, VERIF, main_run, replay_file
 
@@ -321,6 +321,128 @@ def body_errors(ctx, kind):
         ctx.check(isinstance(status, int) and status != 0, 'user-caused failures end with a non-zero exit status')
 
 
+# ---- (b2) extract-points for every pattern of hits and misses --------------------------------
+
+HOLD = {}
+
+
+def _extract_patches():
+    """Symbolic mode: the command reads its dataset / table from, and writes its result to, memory."""
+    import pandas
+    import emsarray
+    import emsarray.cli.commands.extract_points as ep
+    return env.patched(
+        (ep, 'emsarray', env.Proxy(emsarray, dict(open_dataset=lambda path, **k: HOLD['ds']))),
+        (ep, 'pandas', env.Proxy(pandas, dict(read_csv=lambda path, **k: HOLD['df'].copy()))),
+        (ep, 'to_netcdf_with_fixes', lambda dataset, path, **k: HOLD['written'].append((dataset, str(path), k))),
+    )
+
+
+def body_extract(ctx, nreq, policy, conv):
+    """emsarray extract-points == extract_dataframe for every vector of per-row outcomes (hit cell n / miss); under
+    'error' any miss ends with a non-zero status, a message naming exactly the missing rows, and no output."""
+    import contextlib
+    import io
+    import pandas
+    import shapely
+    import xarray
+    import emsarray
+    from emsarray.cli import main
+    from emsarray.operations import point_extraction
+    from harness.c05 import OutcomeTree
+    t = xarray.DataArray(numpy.array(['2020-01-01T00', '2020-01-02T00'], dtype='datetime64[ns]'), dims=['t'])
+    if conv == 'cf1d':
+        ds = builders.cf1d(2, 2, data_vars={'temp': (('t', 'y', 'x'), numpy.arange(8.0).reshape(2, 2, 2) + 0.5),
+                                            'count': (('y', 'x'), numpy.arange(4, dtype='int32').reshape(2, 2))}).assign_coords(time=t)
+    else:
+        ds = builders.ugrid('tqp', fill='nan', data_vars={'temp': (('t', 'nface'), numpy.arange(6.0).reshape(2, 3) + 0.5)}).assign_coords(time=t)
+    polygons = ds.ems.polygons
+    N = len(polygons)
+    outcomes = [int(ctx.int(f'o{k}', -1, N - 1)) for k in range(nreq)]       # forks: (N+1)^nreq outcome vectors
+    misses = [k for k, o in enumerate(outcomes) if o < 0]
+    hits = [k for k, o in enumerate(outcomes) if o >= 0]
+    ctx.note('rows', dict(outcomes=outcomes, policy=policy))
+    argv_tail = ['--missing-points', policy] if policy != 'default' else []
+    eff = 'error' if policy == 'default' else policy
+
+    def run_main(argv):
+        err = io.StringIO()
+        with contextlib.redirect_stderr(err):
+            try:
+                main(['-q'] + list(argv))
+                status = 0
+            except SystemExit as e:
+                status = e.code if e.code is not None else 0
+        return status, err.getvalue()
+
+    if ctx.symbolic:
+        coords = [(float(k), 0.0) for k in range(nreq)]
+        df = pandas.DataFrame({'lon': [c[0] for c in coords], 'lat': [c[1] for c in coords], 'name': [f'row{k}' for k in range(nreq)]})
+        ds.ems.__dict__['strtree'] = OutcomeTree(polygons, outcomes)
+        HOLD.clear()
+        HOLD.update(ds=ds, df=df, written=[])
+        status, message = run_main(['extract-points', 'in.nc', 'points.csv', 'out.nc'] + argv_tail)
+        written = [w[0] for w in HOLD['written']]
+        out = written[0] if written else None
+        ctx.check(len(written) <= 1, 'at most one output file is written')
+        lib_ds = ds
+        work = None
+    else:
+        os.makedirs(os.path.join(VERIF, '.work'), exist_ok=True)
+        work = tempfile.mkdtemp(dir=os.path.join(VERIF, '.work'), prefix='c20x-')
+        coords = []
+        for o in outcomes:
+            if o < 0:
+                coords.append((-170.0 + len(coords), -80.0))
+            else:
+                pt = polygons[o].representative_point()
+                coords.append((pt.x, pt.y))
+        df = pandas.DataFrame({'lon': [c[0] for c in coords], 'lat': [c[1] for c in coords], 'name': [f'row{k}' for k in range(nreq)]})
+        src, csv, dst = (os.path.join(work, n) for n in ('in.nc', 'points.csv', 'out.nc'))
+        ds.to_netcdf(src)
+        df.to_csv(csv, index=False)
+        status, message = run_main(['extract-points', src, csv, dst] + argv_tail)
+        out = xarray.open_dataset(dst).load() if os.path.exists(dst) else None
+        lib_ds = emsarray.open_dataset(src)
+        df = pandas.read_csv(csv)
+    try:
+        if eff == 'error' and misses:
+            ctx.check(status not in (0, None), 'points outside the model end with a non-zero exit status')
+            ctx.check(out is None, 'points outside the model: no output file (never a partial success)')
+            ctx.check(f'total rows: {len(misses)}' in message and all(f'row{k}' in message for k in misses[:5])
+                      and not any(f'row{k}' in message for k in hits), 'the message names exactly the rows that miss')
+            return
+        if not hits:
+            # nothing to extract: the library refuses (ValueError) and so must the command
+            try:
+                point_extraction.extract_dataframe(lib_ds, df, ('lon', 'lat'), point_dimension='point', missing_points=eff)
+                lib_fails = False
+            except ValueError:
+                lib_fails = True
+            if lib_fails:
+                ctx.check(status not in (0, None) and out is None, 'what the library refuses the command refuses, with a non-zero exit status')
+                return
+        ctx.check(status == 0 and out is not None, 'extract-points succeeds when the library call succeeds')
+        if out is None:
+            return
+        ref = point_extraction.extract_dataframe(lib_ds, df, ('lon', 'lat'), point_dimension='point', missing_points=eff)
+        ctx.check(set(out.data_vars) == set(ref.data_vars) and dict(out.sizes) == dict(ref.sizes), 'same variables and sizes as extract_dataframe')
+        ctx.check(list(out['point'].values) == list(ref['point'].values), 'same rows, labelled with their original positions')
+        ok = True
+        for v in ref.data_vars:
+            a, b = numpy.asarray(out[v].values), numpy.asarray(ref[v].values)
+            if a.dtype.kind in 'fc' or b.dtype.kind in 'fc':
+                ok = ok and a.shape == b.shape and bool(numpy.allclose(a.astype(float), b.astype(float), equal_nan=True, rtol=0, atol=0))
+            else:
+                ok = ok and a.shape == b.shape and bool((a == b).all())
+        ctx.check(ok, 'file content equals what extract_dataframe returns')
+    finally:
+        if work:
+            if out is not None:
+                out.close()
+            shutil.rmtree(work, ignore_errors=True)
+
+
 # ---- (c) whole-command equivalence on real files -------------------------------------------
 
 def cli_equivalence(tier):
@@ -423,6 +545,34 @@ def cli_equivalence(tier):
                         V(f'cli:extract:{name}:{label}:{policy}', 'extract-points output equals extract_dataframe', 'point labels differ')
                     got.close()
             notes.append(name)
+        # a GeoJSON file argument denotes the geometry that is in the file *now*: same path, new content
+        from emsarray.cli import utils as cu
+        region = os.path.join(work, 'region.geojson')
+        src = os.path.join(work, 'cf1d.nc')
+        lib = emsarray.open_dataset(src)
+        polys = [p for p in lib.ems.polygons if p is not None]
+        for step, pick in enumerate(([0, 1], [len(polys) - 1], [0, 1])):
+            geom = shapely.unary_union([polys[i] for i in pick]).envelope.buffer(-0.01)
+            with open(region, 'w') as f:
+                json.dump(shapely.geometry.mapping(geom), f)
+            got = cu.geometry_argument(region)
+            if not got.equals(geom):
+                V(f'cli:geometry-file:step{step}', 'a GeoJSON file argument denotes exactly the geometry in the file',
+                  f'file holds {geom.wkt}, argument parsed as {got.wkt}', dict(step=step))
+            out_cli = os.path.join(work, f'region-clip-{step}.nc')
+            status = run_main(['clip', src, region, out_cli])
+            wd = tempfile.mkdtemp(dir=work)
+            out_lib = os.path.join(work, f'region-clip-lib-{step}.nc')
+            emsarray.open_dataset(src).ems.clip(geom, wd).ems.to_netcdf(out_lib)
+            if status != 0 or not os.path.exists(out_cli):
+                V(f'cli:geometry-file:step{step}', 'clip with a GeoJSON file succeeds', f'exit status {status}')
+            else:
+                a, c = xarray.open_dataset(out_cli), xarray.open_dataset(out_lib)
+                if not a.identical(c):
+                    V(f'cli:geometry-file:step{step}', 'clip output equals the library result for the geometry in the file',
+                      f'{dict(a.sizes)} != {dict(c.sizes)}', dict(step=step))
+                a.close()
+                c.close()
         # the CommandException raised for missing points names exactly the missing rows
         from emsarray.cli.commands.extract_points import Command
         src = os.path.join(work, 'cf1d.nc')
@@ -462,6 +612,12 @@ def guess_format_checks():
 def cases(tier):
     for kind in ('command', 'command_default', 'oserror', 'permission', 'value', 'nonintersecting', 'none'):
         yield Case(f'errors:{kind}', body_errors, dict(kind=kind), max_paths=50)
+    q = tier == 'quick'
+    for conv in ('cf1d', 'ugrid'):
+        for policy in ('default', 'error', 'drop', 'fill'):
+            nreq = 2 if (q or policy in ('default',)) else 3
+            yield Case(f'extract:{conv}:{policy}:{nreq}', body_extract, dict(nreq=nreq, policy=policy, conv=conv),
+                       patches=_extract_patches, max_paths=2000, split=8)
 
 
 def functions():
